@@ -253,9 +253,9 @@ Section Model.
     s_users : list urec;
     s_nodes : list nrec;          (* injected nodes in creation order; with a parent these
                                      are parent.children beyond the user nodes, keyed by label *)
-    s_wfcache : option nat }.     (* the parent's own input cache: how many value-holding
-                                     (unconnected) inputs its children had when parent.run()
-                                     last succeeded; None = never *)
+    s_wfcache : bool }.           (* the parent's own input cache is valid: parent.run() has
+                                     succeeded and no child was added since (the parent's inputs,
+                                     i.e. the children's unconnected inputs, never change here) *)
 
   Definition nchildren (st : state) : nat :=
     if s_parent st then List.length (s_users st) + List.length (s_nodes st) else 0.
@@ -418,7 +418,8 @@ Section Model.
         let n := List.length (s_nodes st) in
         let ins := (if q_inject_self q then [OC (q_self q)] else []) ++ q_others q in
         let st1 := mkS (s_parent st) (s_users st)
-                       (s_nodes st ++ [mkN l (q_cls q) ins None false]) (s_wfcache st) in
+                       (s_nodes st ++ [mkN l (q_cls q) ins None false])
+                       false in    (* Composite.add_child resets the parent's cache *)
         (* autorun=True: run(), a ReadinessError is suppressed, anything else escapes *)
         match run_own st1 n with
         | (st2, RRaise x) => (st2, n, Raised x)
@@ -462,20 +463,13 @@ Section Model.
 
   Inductive pres := PVal (v : val) | POwn (x : string) | PUp.
 
-  (* the keys of parent.inputs are the children's unconnected inputs: the user inputs plus one per
-     raw operand of an injected node; values never change, so the count identifies the dict *)
-  Definition raw_inputs (st : state) : nat :=
-    List.length (flat_map (fun r => flat_map (fun o => match o with OR _ => [tt] | OC _ => [] end) (n_in r))
-                          (s_nodes st)).
-
-  Definition set_cache (st : state) (c : option nat) : state :=
+  Definition set_cache (st : state) (c : bool) : state :=
     mkS (s_parent st) (s_users st) (s_nodes st) c.
 
   (* Node.pull = run_data_tree (through parent.run() when there is a parent -- which is itself a
-     cached node: if the parent's inputs are what they were when it last ran successfully, NOTHING
-     upstream is executed) and then the node's own run *)
-  Definition wf_cache_hit (st : state) : bool :=
-    s_parent st && match s_wfcache st with Some k => Nat.eqb k (raw_inputs st) | None => false end.
+     cached node: if it ran successfully before and no child was added since, NOTHING upstream is
+     executed) and then the node's own run *)
+  Definition wf_cache_hit (st : state) : bool := s_parent st && s_wfcache st.
 
   (* run_data_tree of a node with record r: (state, did everything upstream succeed) *)
   Definition pull_upstream (st : state) (r : nrec) : state * bool :=
@@ -486,7 +480,7 @@ Section Model.
         fold_left (fun (acc : state * bool) c' => if snd acc then ensure fuel (fst acc) c' else acc)
                   (operand_chans (n_in r)) (st, true) in
       (* a successful parent.run() records the parent's inputs *)
-      (if ok && s_parent st then set_cache st1 (Some (raw_inputs st1)) else st1, ok).
+      (if ok && s_parent st then set_cache st1 true else st1, ok).
 
   Definition pull (st : state) (n : nat) : state * pres :=
     match nth_error (s_nodes st) n with
@@ -726,7 +720,7 @@ Section Model.
     end.
 
   Definition run_case (parent : bool) (users : list urec) (ss : list step) : obs :=
-    OL (exec (mkS parent users [] None) [] false ss).
+    OL (exec (mkS parent users [] false) [] false ss).
 
 End Model.
 
